@@ -108,8 +108,8 @@ Section WithMv.
         exists s'. split; [|split; [|split]].
         * apply runs_step. unfold step1. cbn [cnext code sub fst snd set_code args req body refs memos].
           rewrite Hn. cbn [nodes_of]. exact R.
-        * rewrite A. rewrite <- app_assoc. reflexivity.
-        * rewrite B. rewrite app_nil_r. reflexivity.
+        * rewrite A. rewrite <- ?app_assoc. reflexivity.
+        * rewrite B. reflexivity.
         * intros x X1 X2. rewrite (C x X1 X2). unfold s1. apply cupd_other. exact X1.
       + set (s1 := cupd s (LMrNodes o) (VNodes (ns ++ [nid c]))).
         set (s2 := cupd s1 (LMrCatalog o) (VMap (put mp (idkey c) (nid c)))).
@@ -123,8 +123,8 @@ Section WithMv.
           replace (s1 (LMrCatalog o)) with (VMap mp)
             by (unfold s1; rewrite cupd_other; [symmetry; exact Hc|discriminate]).
           cbn [map_of]. fold s2. exact R.
-        * rewrite A. rewrite <- app_assoc. reflexivity.
-        * rewrite B. unfold put. rewrite <- app_assoc. reflexivity.
+        * rewrite A. rewrite <- ?app_assoc. reflexivity.
+        * rewrite B. unfold put. rewrite <- ?app_assoc. reflexivity.
         * intros x X1 X2. rewrite (C x X1 X2). unfold s2, s1.
           rewrite cupd_other by exact X2. apply cupd_other. exact X1.
       + destruct (IH rest a rq b f m s ns mp Hn Hc) as [s' [R [A [B C]]]].
@@ -138,7 +138,7 @@ Section WithMv.
         * apply runs_step. unfold step1. cbn [cnext code sub fst snd set_code args req body refs memos].
           rewrite Hc. cbn [map_of]. fold s2. exact R.
         * rewrite A. reflexivity.
-        * rewrite B. unfold put. rewrite <- app_assoc. reflexivity.
+        * rewrite B. unfold put. rewrite <- ?app_assoc. reflexivity.
         * intros x X1 X2. rewrite (C x X1 X2). unfold s2. apply cupd_other. exact X2.
   Qed.
 
